@@ -1,6 +1,6 @@
 import CattrsModel.Core.Wire
 import CattrsModel.Conv.Encoding
-import CattrsModel.Lemmas.RoundTripBase
+import CattrsModel.Lemmas.RoundTripInterp
 /-!
 # Line-protocol operations of the data-path model (driver only)
 -/
@@ -50,6 +50,7 @@ partial def unmodelledSTcore (w : World) (cfg : Cfg) : Ty → Obj → Bool
       | .coll _ xs => (ts.zip xs).any (fun (t, x) => unmodelledSTcore w cfg t x)
       | .dict kvs => (ts.zip kvs).any (fun (t, kv) => unmodelledSTcore w cfg t kv.1)
       | _ => false
+  | .nt c, o => unmodelledSTcore w cfg (.tupleHet (w.ntTys c)) o
   | .map _ kt vt, o =>
       match o with
       | .dict kvs => kvs.any (fun kv => unmodelledSTcore w cfg kt kv.1 || unmodelledSTcore w cfg vt kv.2)
@@ -117,10 +118,18 @@ def topRefused (w : World) : Ty → Bool
   | .union cs _ => unionRefused w cs
   | _ => false
 
+/-- does the payload contain an instance of a NamedTuple class?  Such an object IS a tuple for the structuring
+code (iterable, sized, `==` to the plain tuple); the model's payloads hold plain tuples instead. -/
+partial def hasNTInst (w : World) : Obj → Bool
+  | .inst c fs => w.isNT c || fs.any (fun p => hasNTInst w p.2)
+  | .coll _ xs => xs.any (hasNTInst w)
+  | .dict kvs => kvs.any (fun p => hasNTInst w p.1 || hasNTInst w p.2)
+  | _ => false
+
 /-- Is the call outside the modelled fragment?  (payload shapes the model does not cover, or a refused union
 hook that is only reachable, not reached) -/
 def unmodelledST (w : World) (cfg : Cfg) (ty : Ty) (o : Obj) : Bool :=
-  refusedReach w ty || unmodelledSTcore w cfg ty o
+  refusedReach w ty || unmodelledSTcore w cfg ty o || hasNTInst w o
 
 def hasMark (s : String) : Bool := (s.splitOn "\\uffff").length > 1
 
@@ -137,7 +146,7 @@ def convHandle (w : World) (op : String) (args : List Sexp) : Option Sexp :=
       let cfg ← cfgOfSexp cfg; let ty ← tyOfSexp ty; let o ← objOfSexp o
       if topRefused w ty then
         some (if cfg.detailed then .list [.atom "err", sexpOfErr .leaf] else .list [.atom "err"])
-      else if unmodelledSTcore w cfg ty o then some (.atom "unmodelled")
+      else if unmodelledSTcore w cfg ty o || hasNTInst w o then some (.atom "unmodelled")
       else if refusedReach w ty then
         -- a refused union nested in the type: if the payload reaches it (the model raises) the call fails whether the
         -- hook is created eagerly or lazily; if not, it depends on the factory (eager: raises; lazy: fine) -- not modelled
@@ -163,6 +172,17 @@ def convHandle (w : World) (op : String) (args : List Sexp) : Option Sexp :=
       let wok := w.classes.all (fun c => c.fields.all (fun f => match f.ty with
         | some t => t.unionsOK w tup | Option.none => true))
       some (.list [ofBool (ty.unionsOK w tup && wok), ofBool (refusedReach w ty), ofBool ty.noUnion])
+  | "NTSCOPE", [ty] => do
+      -- NamedTuple hypotheses of the C01 theorems for BaseConverter-unstructured data (`Ty.ntOK`, `World.ntOK`) for this
+      -- type: (type and whole class table, type and the classes it reaches, no NamedTuple class reachable at all)
+      let ty ← tyOfSexp ty
+      let clsOK := fun (c : Cls) =>
+        c.fields.all (fun f => match f.ty with | some t => t.ntOK w | Option.none => true)
+        && (c.kind != .namedtuple || c.fields.all (fun f => match f.ty with | some t => t.isPrimLeaf | Option.none => false))
+      let reach := w.reach w.classes.length ty.refs ty.refs
+      some (.list [ofBool (ty.ntOK w && w.classes.all clsOK),
+                   ofBool (ty.ntOK w && reach.all (fun c => match w.cls? c with | some k => clsOK k | Option.none => true)),
+                   ofBool (reach.all (fun c => !w.isNT c))])
   | "CONF", [ty, o] => do
       let ty ← tyOfSexp ty; let o ← objOfSexp o
       some (ofBool (conf w ty o))
